@@ -184,7 +184,8 @@ def main_c15(tier, seed):
     standard_proof_phase(rep, "C15", MODEL_FILES + ["Props/C15"])
     rng = random.Random(seed + 15)
     N = 250 if tier == "quick" else 20000
-    insts = [gen_instance(rng, nmax=8 if tier == "quick" else 12, nu=rng.choice([0, 0, 1, 2, 3, 5])) for _ in range(N)]
+    insts = [gen_instance(rng, nmax=8 if tier == "quick" else 12, nu=rng.choice([0, 0, 1, 2, 3, 5])) if i % 8 else gen_mixed_dtype_instance(rng)
+             for i in range(N)]
     terms, expect, sts = [], [], []
     for it in insts:
         rk = ranker_for(it)
